@@ -166,8 +166,11 @@ class SLE(Equilibrium, phases='ls'):
         nonzero = frozenset(mol.nonzero_keys())
         if self._nonzero == nonzero:
             index = self._index
-            # Same check (ValueError) and bookkeeping as when the index is rebuilt: the solute may differ from last call's
-            self._solute_gamma_index = index.index(solute_index)
+            # Same bookkeeping (and ValueError) as when the index is rebuilt: the solute may differ from last call's
+            if len(index) == 1:
+                self._chemical = self.chemicals.tuple[solute_index]
+            else:
+                self._solute_gamma_index = index.index(solute_index)
         else:
             chemicals = self.chemicals
             # Set up indices for both equilibrium and non-equilibrium species
